@@ -1078,8 +1078,11 @@ impl CodegenContext {
                         Some(block) => {
                             let old_segment =
                                 std::mem::replace(&mut self.current_segment, Some(segment_id));
-                            self.emit_tokens(&block.inner)?;
+                            // Make sure to switch back to the previous segment, also when the block contains an error
+                            // (which may very well be resolved in a next pass)
+                            let result = self.emit_tokens(&block.inner);
                             self.current_segment = old_segment;
+                            result?;
                         }
                         None => {
                             self.current_segment = Some(segment_id);
